@@ -260,6 +260,35 @@ def rf_value(r, point):
     return n.get((), Fraction(0)) / dv
 
 
+def sum_of_squares_sign(p):
+    """+1 if every monomial of the polynomial is an even power product with a positive coefficient (and there is no constant <= 0), -1 for the negative
+    of such a polynomial, else 0"""
+    if not p:
+        return 0
+    signs = set()
+    for m, c in p.items():
+        if any(e % 2 for _, e in m):
+            return 0
+        signs.add(c > 0)
+    if len(signs) != 1:
+        return 0
+    return 1 if signs.pop() else -1
+
+
+def path_only_at_origin(path, evaluator):
+    """True when the path contains a decision that a sum of squares of inputs is <= 0: in real arithmetic it is taken only when those inputs vanish"""
+    polys = getattr(evaluator, "key_poly", {})
+    for key, val in path.get("decisions", {}).items():
+        d = polys.get(key)
+        if d is None or not (p_is_const(d.d) and d.d and d.d[()] > 0):
+            continue
+        sg = sum_of_squares_sign(d.n)
+        # key means (d < 0) was decided `val`
+        if (sg == 1 and val is True) or (sg == -1 and val is False):
+            return True
+    return False
+
+
 def rf_equal(a, b, cons):
     return not cons.reduce(p_add(p_mul(a.n, b.d), p_mul(b.n, a.d), -1))
 
@@ -310,7 +339,9 @@ class PathEval:
         key = "lt|%r|%r" % (sorted(d.n.items()), sorted(d.d.items()))
         if not hasattr(self, "key_show"):
             self.key_show = {}
+            self.key_poly = {}
         self.key_show[key] = "(%s%s < 0)" % (p_show(d.n, 4), "" if p_is_const(d.d) else " / ...")
+        self.key_poly[key] = d
         return key
 
     def dom_call(self, name, args):
@@ -426,7 +457,7 @@ class PathEval:
                     # decisions taken by selects / integer conversions of comparisons do not show up as branches: list them too
                     shown = {c for c, _ in conds}
                     extra = [(getattr(self, "key_show", {}).get(k, str(k))[:80], v) for k, v in dec.items() if k not in shown]
-                    return {"stores": stores, "conds": conds + [e for e in extra if not conds or len(conds) < 4], "eqs": list(self.path_eqs)}
+                    return {"stores": stores, "conds": conds + [e for e in extra if not conds or len(conds) < 4], "eqs": list(self.path_eqs), "decisions": dict(dec)}
                 elif op in ("switch", "invoke", "unreachable", "indirectbr"):
                     raise Unsupported("terminator " + op)
                 elif op == "call" and ("llvm.memset" in ins.text or "llvm.memcpy" in ins.text):
